@@ -932,3 +932,150 @@ Section Calls.
                  match run_call l c with Some l' => calls_ok K l' tl | None => false end
     end.
 End Calls.
+
+(* ================================================================================================
+   11. records/option_record.py: set_option, remove_option, append_option(_node), prepend_option, replace_option
+   as surgery on the children of the record's root.  None = the Python code raises
+   (NoSuchRuleException from _get_key, IndexError from new_children[-1] / children[-1]). *)
+Section Options.
+  Variable r_option r_KEY r_VALUE r_EQUAL r_WS r_NEWLINE : positive.
+
+  Definition is_option (n : node) : bool :=
+    match n with Tree r _ _ => Pos.eqb r r_option | Tok _ _ _ => false end.
+  Definition is_ws_tok (n : node) : bool := Pos.eqb (rule_of n) r_WS.
+  (* AttrTree.leaf(rule): the first TOKEN child with that rule *)
+  Fixpoint leaf (rule : positive) (ch : list node) : option text :=
+    match ch with
+    | [] => None
+    | Tok r _ v :: tl => if Pos.eqb r rule then Some v else leaf rule tl
+    | Tree _ _ _ :: tl => leaf rule tl
+    end.
+  Definition get_key (n : node) : option text := match n with Tree _ _ ch => leaf r_KEY ch | Tok _ _ _ => None end.
+  Definition get_value (n : node) : option text := match n with Tree _ _ ch => leaf r_VALUE ch | Tok _ _ _ => None end.
+
+  (* AttrTree.replace_first(child): the first child (tree or token) with child's rule is replaced *)
+  Fixpoint replace_first_go (new : node) (ch : list node) : list node :=
+    match ch with
+    | [] => []
+    | c :: tl => if Pos.eqb (rule_of c) (rule_of new) then new :: tl else c :: replace_first_go new tl
+    end.
+  Definition replace_first (new : node) (n : node) : node :=
+    match n with Tree r m ch => Tree r m (replace_first_go new ch) | Tok _ _ _ => n end.
+
+  (* _create_option *)
+  Definition create_option (key : text) (value : option text) : node :=
+    match value with
+    | None => Tree r_option None [Tok r_KEY None key]
+    | Some v => Tree r_option None [Tok r_KEY None key; Tok r_EQUAL None [61%N]; Tok r_VALUE None v]
+    end.
+  Definition ws_token : node := Tok r_WS None [32%N].
+  Definition nl_token : node := Tok r_NEWLINE None [10%N].
+
+  (* the first loop of set_option: None = raised, Some None = no option with that key, Some (Some l) = replaced *)
+  Fixpoint set_go (key v : text) (l : list node) : option (option (list node)) :=
+    match l with
+    | [] => Some None
+    | n :: tl =>
+        if is_option n then
+          match get_key n with
+          | None => None
+          | Some k =>
+              if text_eqb k key then Some (Some (replace_first (Tok r_VALUE None v) n :: tl))
+              else match set_go key v tl with
+                   | Some (Some r) => Some (Some (n :: r))
+                   | x => x
+                   end
+          end
+        else match set_go key v tl with
+             | Some (Some r) => Some (Some (n :: r))
+             | x => x
+             end
+    end.
+  (* position just behind the last option *)
+  Fixpoint after_last_option (i : nat) (l : list node) (acc : option nat) : option nat :=
+    match l with
+    | [] => acc
+    | n :: tl => after_last_option (S i) tl (if is_option n then Some (S i) else acc)
+    end.
+  Definition set_option (ch : list node) (key v : text) : option (list node) :=
+    match set_go key v ch with
+    | None => None
+    | Some (Some r) => Some r
+    | Some None =>
+        let new := [ws_token; create_option key (Some v)] in
+        match after_last_option 0 ch None with
+        | None => Some (new ++ ch)
+        | Some k => Some (firstn k ch ++ new ++ skipn k ch)
+        end
+    end.
+
+  Definition is_target (key : text) (n : node) : option bool :=
+    if is_option n then match get_key n with Some k => Some (text_eqb k key) | None => None end else Some false.
+  (* remove_option: acc is new_children reversed *)
+  Fixpoint remove_go (key : text) (acc : list node) (l : list node) : option (list node) :=
+    match l with
+    | [] => Some (rev acc)
+    | n :: tl =>
+        match is_target key n with
+        | None => None
+        | Some true => match acc with
+                       | [] => None                                         (* new_children[-1]: IndexError *)
+                       | a :: acc' => if is_ws_tok a then remove_go key acc' tl else remove_go key acc tl
+                       end
+        | Some false => remove_go key (n :: acc) tl
+        end
+    end.
+  Definition remove_option (ch : list node) (key : text) : option (list node) := remove_go key [] ch.
+
+  (* _append_option_args: scan from the end *)
+  Fixpoint append_scan (i : nat) (rl : list node) : nat * node :=       (* rl = children reversed, i = index of its head + 1 *)
+    match rl with
+    | [] => (0, ws_token)
+    | c :: tl => if is_option c then (i, ws_token)
+                 else if Pos.eqb (rule_of c) r_WS || Pos.eqb (rule_of c) r_NEWLINE then append_scan (i - 1) tl
+                 else (i, nl_token)
+    end.
+  Definition append_option_node (ch : list node) (nd : node) : option (list node) :=
+    match rev ch with
+    | [] => None                                                            (* children[-1]: IndexError *)
+    | lastc :: _ =>
+        let n := length ch in
+        let j := if is_ws_tok lastc then n - 1 else n in
+        let '(i, sep) := append_scan n (rev ch) in
+        Some (firstn i ch ++ sep :: nd :: firstn (j - i) (skipn i ch))
+    end.
+  Definition append_option (ch : list node) (key : text) (value : option text) : option (list node) :=
+    append_option_node ch (create_option key value).
+
+  Definition prepend_option (ch : list node) (key : text) (value : option text) : list node :=
+    firstn 1 ch ++ [create_option key value; ws_token] ++ skipn 1 ch.
+
+  (* replace_option: root.map(_fn) *)
+  Definition has_rule (rule : positive) (ch : list node) : bool := existsb (fun c => Pos.eqb (rule_of c) rule) ch.
+  Definition replace_fn (old new : text) (n : node) : option node :=
+    match n with
+    | Tree r m ch =>
+        if Pos.eqb r r_option then
+          if has_rule r_KEY ch then
+            match leaf r_KEY ch with
+            | None => None
+            | Some k => Some (if text_eqb k old then replace_first (Tok r_KEY None new) n else n)
+            end
+          else if has_rule r_VALUE ch then
+            match leaf r_VALUE ch with
+            | None => None
+            | Some v => Some (if text_eqb v old then replace_first (Tok r_VALUE None new) n else n)
+            end
+          else Some n
+        else Some n
+    | Tok _ _ _ => Some n
+    end.
+  Fixpoint replace_option (ch : list node) (old new : text) : option (list node) :=
+    match ch with
+    | [] => Some []
+    | c :: tl => match replace_fn old new c, replace_option tl old new with
+                 | Some c', Some tl' => Some (c' :: tl')
+                 | _, _ => None
+                 end
+    end.
+End Options.
